@@ -1,0 +1,22 @@
+//go:build verif
+
+// Machine-checked contracts of the stdio plugin readers (C18): every Read / ReadLine result is turned into exactly
+// one notification sequence - the bytes that were read (a private copy), then the reader's outcome. Comments only.
+// Assumed contracts (T4): io.Reader.Read returns 0 <= n <= len(buf); bufio.Reader.ReadLine returns the next line.
+
+package rostdio
+
+//@ func NewIOReader$1
+//@   note the subscribe function of NewIOReader: read, deliver a copy of what was read (also when it comes with an error), stop at the first error
+//@   props C18
+//@   track destination.* loop.*
+//@   ensures [data-returned-with-the-last-read-is-delivered-first|C18] res(reader.Read, 0) > 0 && res(reader.Read, 1) == global_EOF ==> trace(loop.L0, destination.NextWithContext(ctx, _), destination.CompleteWithContext(ctx))
+//@   ensures [data-then-the-reader's-error|C18] res(reader.Read, 0) > 0 && res(reader.Read, 1) != global_EOF ==> trace(loop.L0, destination.NextWithContext(ctx, _), destination.ErrorWithContext(ctx, res(reader.Read, 1)))
+//@   ensures [end-of-input-completes|C18] res(reader.Read, 0) <= 0 && res(reader.Read, 1) == global_EOF ==> trace(loop.L0, destination.CompleteWithContext(ctx))
+//@   ensures [a-read-error-is-forwarded|C18] res(reader.Read, 0) <= 0 && res(reader.Read, 1) != global_EOF ==> trace(loop.L0, destination.ErrorWithContext(ctx, res(reader.Read, 1)))
+//@   ensures [the-delivered-chunk-has-the-length-read|C18] res(reader.Read, 0) > 0 ==> len(arg(destination.NextWithContext, 1)) == res(reader.Read, 0)
+
+//@ loop NewIOReader$1#0
+//@   iteration ensures count(reader.Read) == 1 && res(reader.Read, 1) == nil
+//@   iteration ensures res(reader.Read, 0) > 0 ==> count(destination.NextWithContext) == 1 && before(reader.Read, destination.NextWithContext) && len(arg(destination.NextWithContext, 1)) == res(reader.Read, 0) && arg(destination.NextWithContext, 0) == ctx
+//@   iteration ensures res(reader.Read, 0) <= 0 ==> count(destination.NextWithContext) == 0
